@@ -22,7 +22,7 @@ def run(ctx):
     ctx.rule = ("pc: every DAG on 4 labelled nodes (543) as ground truth x variants {orig, stable, parallel} x return types x CI route "
                 "{callable d-separation oracle, independence_match}; pdag: every well-formed partially directed graph on 4 nodes (4096), "
                 "to_dag checked on the extendable ones. distinct = ground-truth DAGs / PDAGs; non-trivial iff >= 2 edges.")
-    ctx.assumptions += ["CI answers are exact d-separation of the ground truth (TLC's table)", "max_cond_vars = number of nodes",
+    ctx.assumptions += ["CI answers are exact d-separation of the ground truth (TLC's table)", "max_cond_vars in {maximal degree of the ground truth (the statement's bound), that + 1, number of nodes}",
                         "a separating set is correct iff it d-separates the pair in the ground truth"]
     # design level: the skeleton phase as coded (any edge-visiting order, any separating set found) is sound and complete
     ctx.tlc("MC_PCSkel", f"CONSTANT Nodes = {N4}\nINIT Init\nNEXT Next\nINVARIANT Sound\nINVARIANT NeverDropsTrueEdge\n"
@@ -38,11 +38,14 @@ def run(ctx):
     if len(pds) != 4096:
         raise Machinery(f"expected 4096 PDAGs, got {len(pds)}")
     ctx.exhaustive = True
-    if ctx.thorough:
+    if True:
         # sampled 5-node ground truths: class / CPDAG by enumeration over all 29 281 DAGs, Meek lemmas included
+        # (orientation chains of length >= 2 behind a v-structure need 5 nodes: two fixed shapes + random ones)
         rng = random.Random(ctx.seed + 125)
-        dags = []
-        for _ in range(40):
+        dags = [[["v0", "v2"], ["v1", "v2"], ["v2", "v3"], ["v3", "v4"]],
+                [["v3", "v1"], ["v4", "v1"], ["v1", "v0"], ["v0", "v2"]],
+                [["v0", "v2"], ["v1", "v2"], ["v2", "v3"], ["v2", "v4"], ["v3", "v4"]]]
+        for _ in range(40 if ctx.thorough else 9):
             order = [f"v{i}" for i in range(5)]
             rng.shuffle(order)
             pr = rng.choice([0.3, 0.5, 0.7])
@@ -199,18 +202,22 @@ def replay_gen(payload):
                 ind = Independencies(*[[vn[t["x"]], vn[t["y"]], [vn[z] for z in t["z"]]] for t in shuffled(case["indep"], rng)])
                 est = PC(independencies=ind)
                 kw = dict(ci_test="independence_match")
+            # the statement's bound: max_cond_vars >= maximal degree of the ground truth; asked AT the bound as well as far above it
+            maxdeg = max([0] + [sum(1 for e in case["skeleton"] if v in e) for v in nodes])
+            mcv = {"orig": len(nodes), "stable": maxdeg, "parallel": rng.choice([maxdeg, maxdeg + 1, len(nodes)])}[variant]
+            feat["max_cond_vars_at_bound"] = mcv == maxdeg
             try:
                 ncalls += 3
                 del queries[:]
-                skel, seps = est.build_skeleton(variant=variant, max_cond_vars=len(nodes), n_jobs=1, show_progress=False, **kw)
+                skel, seps = est.build_skeleton(variant=variant, max_cond_vars=mcv, n_jobs=1, show_progress=False, **kw)
                 if route == "callable":
-                    skel_traces.append({"nodes": nodes, "edges": case["edges"], "variant": variant, "maxcond": len(nodes), "case": case,
+                    skel_traces.append({"nodes": nodes, "edges": case["edges"], "variant": variant, "maxcond": mcv, "case": case,
                                         "seed": payload["seed"], "hashseed": hs,
                                         "events": list(queries) + [{"ev": "final", "skeleton": [[inv[u], inv[v]] for u, v in skel.edges()],
                                                                     "seps": [{"x": sorted(inv[x] for x in k)[0], "y": sorted(inv[x] for x in k)[-1],
                                                                               "s": sorted(inv[z] for z in S)} for k, S in seps.items()]}]})
-                pdag = est.estimate(variant=variant, max_cond_vars=len(nodes), return_type="cpdag", n_jobs=1, show_progress=False, **kw)
-                dag = est.estimate(variant=variant, max_cond_vars=len(nodes), return_type="dag", n_jobs=1, show_progress=False, **kw)
+                pdag = est.estimate(variant=variant, max_cond_vars=mcv, return_type="cpdag", n_jobs=1, show_progress=False, **kw)
+                dag = est.estimate(variant=variant, max_cond_vars=mcv, return_type="dag", n_jobs=1, show_progress=False, **kw)
             except Exception as ex:  # noqa
                 fail("PC.estimate", "raises", repr(ex)[:300])
                 continue
